@@ -138,6 +138,12 @@ class DeliveryModel(Monitor):
         # bounded completion is only demanded when the run ended in the fair phase
         if sim.stopped_reason == "step-cap" or not self.completion:
             return
+        if sim.server is None and getattr(sim, "frontend", {}).get("token_bad"):
+            # the server front-end (harness) bound its Retry token to the client's address and the client was rebound
+            # before its token-bearing Initial arrived: the token is refused for ever and no connection exists on the
+            # server side (RFC 9000 8.1.2 lets the server do that); nothing of the delivery guarantee applies
+            self.exempt_no_connection = True
+            return
         for side, sid, recv, w in self._obligations():
             self.evaluations += 1
             d = self.delivered.get((recv, sid), 0)
